@@ -22,7 +22,9 @@ import (
 	_ "verif/checks/c08"
 	_ "verif/checks/c09"
 	_ "verif/checks/c10"
+	_ "verif/checks/c11"
 	_ "verif/checks/c12"
+	_ "verif/checks/c13"
 	_ "verif/checks/c14"
 	_ "verif/checks/c15"
 	_ "verif/checks/c16"
